@@ -10,11 +10,13 @@ LEVEL = 'exploration'
 BUDGET = {'quick': (40000, 80.0), 'thorough': (500000, 1500.0)}
 RULE = ('one real CA (arbitrary-address-capable or fixed; claiming or bypassed) driven through claim histories by a scripted contender that injects address-claimed '
         'frames with a lower or higher NAME for the address the CA currently announces, at instants before, inside and after the veto window; every send entry point '
-        '(send_pgn single / RTS-CTS / BAM, send_message, send_request incl. the claim PGN, Dm22, Dm14Query, Dm1 via its timer) is called at drawn instants. '
+        '(send_pgn single / RTS-CTS / BAM, send_message, send_request incl. the claim PGN, Dm22, Dm14Query, Dm1 via its timer) is called at drawn instants, and in some runs re-entrantly from inside the stack\'s own k-th transmission; send_request uses PGNs around the address-claim PGN. '
         'non-trivial = at least one call was made while the CA was not operational and one while it was; distinct = distinct scenario JSON')
-REQUIRED_PROBES = ['calls_operational', 'calls_not_operational', 'raised', 'frames_judged', 'losses', 'moves', 'claim_requests_from_254']
+REQUIRED_PROBES = ['calls_operational', 'calls_not_operational', 'raised', 'frames_judged', 'losses', 'moves', 'claim_requests_from_254', 'reentrant_calls']
 EPS = ['pgn_short', 'pgn_long', 'pgn_bam', 'message', 'request', 'request_claim', 'dm22', 'dm14', 'pgn_short', 'message']
 X_ADDR = 0x55
+REQ_PGNS = [0xFECA, 0xEEFF, 0xEE01, 0x1EE00, 0x2EE00, 0x3EE00, 0xEF00, 0xED00, 0x0000, 0x3FFFF]
+REENTRANT_EPS = ['pgn_short', 'pgn_long', 'message', 'request', 'request_claim', 'dm22']
 STATE = {0: 'NONE', 1: 'WAIT_VETO', 2: 'NORMAL', 3: 'CANNOT_CLAIM'}
 
 
@@ -33,8 +35,14 @@ def generate(rng, tier, i):
     scn['contender'] = sorted(ev, key=lambda e: e['at_ms'])
     calls = []
     for _ in range(rng.randint(2, 10)):
-        calls.append({'at_ms': rng.choice([0, 1, 60, 120, 260, 400, 700, 1000, 1500, 2100, rng.randrange(0, 2200)]), 'ep': rng.choice(EPS)})
+        c = {'at_ms': rng.choice([0, 1, 60, 120, 260, 400, 700, 1000, 1500, 2100, rng.randrange(0, 2200)]), 'ep': rng.choice(EPS)}
+        if c['ep'] == 'request':
+            c['pgn'] = rng.choice(REQ_PGNS) if rng.random() < 0.8 else rng.getrandbits(18)
+        calls.append(c)
     scn['calls'] = sorted(calls, key=lambda c: c['at_ms'])
+    # application calls made re-entrantly from inside the stack's own k-th transmission (the send backend calling back,
+    # or an application thread running at that very instant)
+    scn['reentrant'] = [{'k': rng.randrange(0, 6), 'ep': rng.choice(REENTRANT_EPS)} for _ in range(rng.choice([0, 0, 1, 2]))]
     scn['dm1_at_end'] = rng.random() < 0.4
     return scn
 
@@ -57,10 +65,24 @@ def execute(scn, keep_log=False, hook=None):
     last_announced = [None]
     tp_pfs = (rc.PF_TP_CM, rc.PF_TP_DT, rc.PF_FD_TP_CM, rc.PF_FD_TP_DT)
 
+    txn = [0]
+    depth = [0]
+
     def observe(fr):
         if fr.src != 'S':
             return
         i = rc.Id(fr.can_id)
+        k = txn[0]
+        txn[0] += 1
+        if depth[0] == 0:
+            for r in scn.get('reentrant', []):
+                if r['k'] == k:
+                    depth[0] += 1
+                    try:
+                        stats['reentrant_calls'] += 1
+                        call({'ep': r['ep'], 'pgn': 0xFECA}, reentrant=True)
+                    finally:
+                        depth[0] -= 1
         if i.pf == rc.PF_ADDRESS_CLAIM:
             if i.sa != 254:
                 last_announced[0] = i.sa
@@ -107,7 +129,7 @@ def execute(scn, keep_log=False, hook=None):
     dm22 = j.Dm22(ca)
     q = {'n': 0}
 
-    def call(c):
+    def call(c, reentrant=False):
         state = ca.state
         operational = state == 2
         stats['calls_operational' if operational else 'calls_not_operational'] += 1
@@ -123,7 +145,7 @@ def execute(scn, keep_log=False, hook=None):
             elif ep == 'message':
                 ca.send_message(6, 0xFECA, [1, 2, 3, 4, 5, 6, 7, 8])
             elif ep == 'request':
-                ca.send_request(0, 0xFECA, 255)
+                ca.send_request(0, c.get('pgn', 0xFECA), 255)
             elif ep == 'request_claim':
                 ca.send_request(0, 0xEE00, 255)
             elif ep == 'dm22':
@@ -152,8 +174,8 @@ def execute(scn, keep_log=False, hook=None):
         stats['raised'] += int(raised)
         expect_raise = (not operational) and ep != 'request_claim'
         if raised != expect_raise:
-            viol.append({'clause': 'raise-mismatch', 'rank': 2, 'feat': {'ep': ep, 'state': STATE.get(state)},
-                         'msg': '%s while %s: %s' % (ep, STATE.get(state), ('raised %r' % (exc,)) if raised else 'did not raise')})
+            viol.append({'clause': 'raise-mismatch', 'rank': 2, 'feat': {'ep': ep, 'state': STATE.get(state), 'reentrant': reentrant},
+                         'msg': '%s%s while %s: %s' % (ep, (' (pgn %05X)' % c['pgn']) if 'pgn' in c and ep == 'request' else '', STATE.get(state), ('raised %r' % (exc,)) if raised else 'did not raise')})
     for c in scn['calls']:
         sim.at(base + c['at_ms'] * 1_000_000, (lambda c=c: call(c)), 'op')
     sim.run_until(base + 2_400_000_000)
@@ -197,6 +219,7 @@ def features(scn, v):
 def shrink(scn):
     yield from gen.drop_each(scn, 'calls', 0)
     yield from gen.drop_each(scn, 'contender', 0)
+    yield from gen.drop_each(scn, 'reentrant', 0)
     if scn.get('dm1_at_end'):
         c = copy.deepcopy(scn)
         c['dm1_at_end'] = False
